@@ -359,3 +359,29 @@ LIMITS_THOROUGH = [
     lim_cfg("f", 3, "NTR", "none", "uint8_t", std="c++11"),
     lim_cfg("v", 0, "NTR", "exact", "uint8_t", std="c++20"),
 ]
+
+
+def fault_cfg(*a, **k):
+    return OneVecCfg("flt", "vec_fault_main.hpp", *a, **k)
+
+
+FAULT_QUICK = [
+    fault_cfg("v", 0, "NTR", "basic", "uint32_t"),
+    fault_cfg("v", 0, "TR", "realloc", "uint32_t"),
+    fault_cfg("s", 3, "NTR", "exact", "uint32_t"),
+    fault_cfg("s", 4, "TR", "basic", "uint8_t"),
+    fault_cfg("s", 8, "NTR", "basic", "uint32_t"),
+    fault_cfg("f", 8, "NTR", "none", "uint8_t"),
+    fault_cfg("f", 8, "TR", "none", "uint8_t"),
+]
+FAULT_THOROUGH = [
+    fault_cfg("v", 0, "NTR", "exact", "int16_t"),
+    fault_cfg("v", 0, "TR", "basic", "uint64_t"),
+    fault_cfg("s", 1, "NTR", "basic", "uint32_t"),
+    fault_cfg("s", 2, "TR", "exact", "uint32_t"),
+    fault_cfg("s", 6, "TR", "realloc", "uint16_t"),
+    fault_cfg("f", 16, "NTR", "none", "uint8_t"),
+    fault_cfg("s", 4, "NTR", "basic", "uint32_t", compiler="clang++-14"),
+    fault_cfg("v", 0, "NTR", "basic", "uint32_t", std="c++11"),
+    fault_cfg("s", 4, "TR", "basic", "uint32_t", std="c++20"),
+]
